@@ -95,9 +95,25 @@ class C09(fw.Prop):
                     out = f.to_bytes()
                 except ValueError:
                     return "err range"
+                if d.get("reuse"):
+                    # the same frame from an object that was built and serialised with other values first and then given
+                    # these ones field by field (a frame object re-used for the next segment / the next station): what
+                    # to_bytes() emits depends on the current field values only
+                    o = d["reuse"]
+                    g = build(kind, tuple(o["dst"]), tuple(o["src"]), o["ssn"], o["rsn"], o["final"], o["seg"], bytes.fromhex(o["payload"]))
+                    g.to_bytes()
+                    g.destination_address, g.source_address = mk_addr(dst), mk_addr(src)
+                    g.payload, g.segmented, g.final = payload, bool(seg), bool(fin)
+                    if kind == "i":
+                        g.send_sequence_number = ssn
+                    if kind in ("i", "rr"):
+                        g.receive_sequence_number = rsn
+                    again = g.to_bytes()
+                    if bytes(again) != bytes(out):
+                        return "ok " + fw.hx(again) + " !reused-object-differs-from-fresh " + fw.hx(out)
                 return "ok " + fw.hx(out)
             line = f"hdlc ser {kind} {addr_str(dst)} {addr_str(src)} {ssn} {rsn} {fin} {seg} {fw.hx(payload)}"
-            return fw.Case(line, impl, "prop", d, tags=("ser-" + kind,))
+            return fw.Case(line, impl, "prop", d, tags=("ser-" + kind + ("-reused" if d.get("reuse") else ""),))
         if op == "parse":
             data = bytes.fromhex(d["data"])
             k = d["parser"]
@@ -167,6 +183,21 @@ class C09(fw.Prop):
                 # (the bytes are the specification's serialisation - checked by the "ser" case - so what the model of the
                 #  parser returns for them is, by C09_parse_serialize, the frame itself: a disagreement is a property failure)
                 yield mk({"op": "parse", "parser": kind, "data": data.hex(), "kind": "prop", "tag": "roundtrip"})
+        # re-used frame objects: every frame of a sample is also produced from an object first serialised as another frame
+        # of the same kind
+        by_kind = {}
+        for fr in frs:
+            by_kind.setdefault(fr[0], []).append(fr)
+        for (kind, dst, src, ssn, rsn, fin, seg, payload) in (frs if deep else rng.sample(frs, min(len(frs), 300))):
+            okind, odst, osrc, ossn, orsn, ofin, oseg, opayload = rng.choice(by_kind[kind])
+            yield mk({"op": "ser", "kind": kind, "dst": dst, "src": src, "ssn": ssn, "rsn": rsn, "final": fin, "seg": seg, "payload": payload.hex(),
+                      "reuse": {"dst": odst, "src": osrc, "ssn": ossn, "rsn": orsn, "final": ofin, "seg": oseg, "payload": opayload.hex()}})
+        # kinds without an information field built with the optional payload argument: it is not part of the frame
+        for kind in ("snrm", "disc", "rr"):
+            to_meter = kind in ("snrm", "disc")
+            c, s = ("c", 16, None), ("s", 1, 17)
+            yield mk({"op": "ser", "kind": kind, "dst": s if to_meter else c, "src": c if to_meter else s, "ssn": 0, "rsn": 3, "final": 1, "seg": 0,
+                      "payload": "818012050180060180070400000001080400000001"})
         # largest legal and too long, out-of-range numbers
         c, s = ("c", 16, None), ("s", 1, 17)
         for kind in ("ua", "i", "ui"):
